@@ -25,7 +25,7 @@ from . import c13_util as U
 MODEL_ACTIONS = ("ViaRhoTensordot", "ViaTraceGRho", "ViaRhoG10", "ViaGRho10", "ViaGateOverlap", "ViaLoopExpansion",
                  "RdmRoute", "OperatorRoute", "TableCase")
 SELFTESTS = (("MC_mut_axes.cfg", "RouteGivesDense", "tensordot(G, rho) without swapping the axes"),
-             ("MC_prefix.cfg", "RdmGivesDense", "conjugate on the ket copy (partial_trace_to_mpo) without the exemption"),
+             ("MC_prefix.cfg", "RdmGivesDense", "partial_trace_to_mpo as before fix b933ce2a (conjugate on the ket copy)"),
              ("MC_mut_gate.cfg", "RouteGivesDense", "gate applied transposed"),
              ("MC_mut_count.cfg", "RouteGivesDense", "base region counted once next to the spanning cluster"),
              ("MC_mut_conj.cfg", "RdmGivesDense", "conjugate on the ket copy in every rho route"))
@@ -174,7 +174,7 @@ class Recorder:
     # ------------------------------------------------------------------ operator form
     def operator(self, route, where, bare, nrm, rng):
         geo = self.geo
-        if route == "operator_partial_transpose":
+        if route in ("operator_partial_transpose", "mpo_partial_transpose"):
             k = len(where)
             sys_pos = sorted(rng.sample(range(k), rng.randint(0, k)))
             rec = self._base("optranspose", route, where, bare, nrm)
@@ -189,6 +189,17 @@ class Recorder:
                     mpo = geo.tn.partial_trace_to_mpo(list(where), rescale_sites=rng.choice([True, False]))
                     v = mpo.trace()
                     rec["ongrid"], rec["val"] = U.snap_scalar(v, 1, geo.den)
+                elif route == "mpo_partial_transpose":
+                    resc = rng.choice([True, False])
+                    mpo = geo.tn.partial_trace_to_mpo(list(where), rescale_sites=resc)
+                    ms = list(range(len(where))) if resc else list(where)
+                    sysa = [ms[p] for p in sys_pos]
+                    arg = sysa[0] if (len(sysa) == 1 and rng.random() < 0.5) else tuple(sysa)
+                    rec["opts"] = "rescale_sites=%s" % resc
+                    pt = mpo.partial_transpose(arg)
+                    d = U.np_dense(U.tn_tensors(pt), [pt.upper_ind(i) for i in ms] + [pt.lower_ind(i) for i in ms]) * 10.0 ** float(pt.exponent)
+                    n = int(np.prod(d.shape[: len(ms)]))
+                    rec["ongrid"], rec["mat"] = U.snap_matrix(d.reshape(n, n), 1, geo.den)
                 else:
                     w = where[0] if bare else tuple(where)
                     op = U.operator_form(geo, w, rng)
@@ -258,7 +269,7 @@ class Recorder:
             return self.expect(route, where, bare, nrm, rng, op)
         if route in U.RDM_ROUTES:
             return self.rdm(route, where, bare, nrm, rng)
-        if route in ("operator_trace", "operator_partial_transpose", "mpo_trace"):
+        if route in ("operator_trace", "operator_partial_transpose", "mpo_trace", "mpo_partial_transpose"):
             return self.operator(route, where, bare, nrm, rng)
         if route in ("peps_compute_norm", "peps_normalize"):
             return self.norm(route, rng)
